@@ -132,6 +132,9 @@ def check(pid, tier, seed, a, t0):
             if r["error"]:
                 errors.append(f"{tag}: {r['error'][-1500:]}")
                 continue
+            cv = r.get("cover") or {}
+            if cv.get("exits") and not cv.get("reachable") and not cv.get("unknown"):
+                errors.append(f"{tag}: vacuous - no exit of the function is reachable under the contract's assumptions")
             if r["unsupported"]:
                 undecided.append({"obligation": tag, "reason": "outside the modelled subset / target missing: " + r["unsupported"]})
             f = funcs.setdefault(r["target"], {"sha": r.get("sha"), "lines": r.get("lines"), "obligations": 0, "instances": 0})
